@@ -157,7 +157,9 @@ def gen_texts(rng, count):
               '.1', '.5', '1.5', '1.0000000', '1.00000001', '0.1234567', '0.12345678', '100000000', '1E7', '1E+38', '1.701411E38',
               '1.701412E38', '1.7014118346046923D38', '1.70141183460469232D38', '2.938736E-39', '2.9E-39', '1E-39', '3E-40', '1D-38',
               '2.93873587705571877D-39', '2.93873587705571876D-39', '1D-40', '9.999999E-01', '99999999', '.000000123456789', '1E0',
-              '1D0', '123456789E-20', '1.5E', '000', '0.0', '0E5', '0D0', '4.94065645841246544e-324', '1e39', '1d39', '9E38'):
+              '1D0', '123456789E-20', '1.5E', '000', '0.0', '0E5', '0D0', '4.94065645841246544e-324', '1e39', '1d39', '9E38',
+              '1.' + '0' * 38, '1.' + '0' * 39, '2809077966285803664500000000.000000000000', '5.000000000000000',
+              '30000.0000000', '1' + '0' * 38, '1' + '0' * 39 + 'E-2'):
         out.append(('fixed', t))
     return out
 
